@@ -38,7 +38,7 @@ def budget(tier):
 
 @st.composite
 def case(draw):
-    desc = draw(bm.description(allow_dirs=True, allow_amo=True))
+    desc = draw(bm.description(allow_dirs=True, allow_amo=True, allow_mutated=True))
     ops = []
     n = draw(st.integers(3, 10))
     cur = copy.deepcopy(desc)
@@ -86,7 +86,8 @@ def case(draw):
 
 
 def amo_outs(cur):
-    return {o for c in cur["commands"] if c.get("allow-modified-outputs") for o in c["outputs"]}
+    """outputs whose modification is, by declaration, not a reason to re-run their producer"""
+    return {o for c in cur["commands"] if c.get("allow-modified-outputs") for o in c["outputs"]} | set(cur.get("nodes", {}))
 
 
 @st.composite
